@@ -127,13 +127,17 @@ func (match6Engine) Run(ctx *fw.Ctx, cs any) {
 				}
 				inner := pkt.Msg6(byte(typ), xid, opts)
 				plain := addReq(inner, -1)
-				if hasCID && supported6[byte(typ)] && rng.Intn(4) == 0 {
+				if hasCID && supported6[byte(typ)] && rng.Intn(4) == 0 && wellFormedDUID(opts[0].Data) {
 					// the same message from a client with another identifier (of another kind, or exactly the
 					// server's own): to a server a client identifier is opaque - whether the message is
 					// answered cannot depend on its value
-					o2 := append([]pkt.Opt6{pkt.O6(pkt.OptClientID6, [][]byte{pkt.DUIDLL([]byte{0x00, 0xde, 0xad, 0xbe, 0xef, 0x00}), pkt.DUIDLLT(0, []byte{0x00, 0xde, 0xad, 0xbe, 0xef, 0x00}), randDUID(rng)}[rng.Intn(3)])}, opts[1:]...)
+					o2 := append([]pkt.Opt6{pkt.O6(pkt.OptClientID6, [][]byte{pkt.DUIDLL([]byte{0x00, 0xde, 0xad, 0xbe, 0xef, 0x00}), pkt.DUIDLLT(0, []byte{0x00, 0xde, 0xad, 0xbe, 0xef, 0x00}), pkt.DUIDEN(rng.Uint32(), []byte{1, 2, byte(rng.Intn(256))}), pkt.DUIDLL([]byte{2, 0, byte(rng.Intn(256)), 9, 9, byte(rng.Intn(256))})}[rng.Intn(4)])}, opts[1:]...)
 					xid++
-					twins = append(twins, [2]int{plain, addReq(pkt.Msg6(byte(typ), xid, o2), -1)})
+					tw := addReq(pkt.Msg6(byte(typ), xid, o2), -1)
+					// (same source address, port and arrival link as its twin: the identifier is the only difference)
+					ms[tw].src, ms[tw].port, ms[tw].arrival = ms[plain].src, ms[plain].port, ms[plain].arrival
+					job.Reqs[tw].Peer, job.Reqs[tw].Port, job.Reqs[tw].RxIfName = job.Reqs[plain].Peer, job.Reqs[plain].Port, job.Reqs[plain].RxIfName
+					twins = append(twins, [2]int{plain, tw})
 				}
 				depth := rng.Intn(5)
 				if supported6[byte(typ)] && rng.Intn(3) == 0 {
@@ -282,4 +286,23 @@ func clientDUID6(rng *rand.Rand) []byte {
 		return pkt.DUIDLL([]byte{0x00, 0xde, 0xad, 0xbe, 0xef, 0x00})
 	}
 	return randDUID(rng)
+}
+
+// wellFormedDUID: a DUID of one of the four defined types with the fields its type requires (whether a message
+// with a malformed client identifier is answered is the codec's verdict, not a matter of the identifier's value).
+func wellFormedDUID(d []byte) bool {
+	if len(d) < 2 || d[0] != 0 {
+		return false
+	}
+	switch d[1] {
+	case 1:
+		return len(d) >= 8+1
+	case 2:
+		return len(d) >= 6+1
+	case 3:
+		return len(d) >= 4+1
+	case 4:
+		return len(d) == 18
+	}
+	return false
 }
